@@ -161,7 +161,16 @@ func (r *rec) run2(th int, a acq, alone bool, othersBusy, touched int) {
 }
 
 func scenario(rw bool, used bool, prog [][]acq, bound, raceBound int) schk.Scenario {
+	return crowded(rw, used, 0, prog, bound, raceBound)
+}
+
+// crowded: like scenario, but `crowd` further keys (and key x) have been used before, so that
+// key y's first use happens in a map that already holds crowd+1 keys (cache-size thresholds).
+func crowded(rw bool, used bool, crowd int, prog [][]acq, bound, raceBound int) schk.Scenario {
 	name := map[bool]string{false: "KeyedMutex", true: "KeyedRWMutex"}[rw] + map[bool]string{false: "/fresh|", true: "/used|"}[used]
+	if crowd > 0 {
+		name = fmt.Sprintf("%s/%d-other-keys|", name[:len(name)-1], crowd)
+	}
 	uses := [2]int{}
 	for i, p := range prog {
 		if i > 0 {
@@ -190,6 +199,19 @@ func scenario(rw bool, used bool, prog [][]acq, bound, raceBound int) schk.Scena
 				for k := 0; k < 2; k++ {
 					r.km.LockKey(k)
 					r.km.UnlockKey(k)
+				}
+			}
+			if crowd > 0 {
+				r.km.LockKey(0)
+				r.km.UnlockKey(0)
+				for k := 10; k < 10+crowd; k++ {
+					if rw && k%2 == 0 {
+						r.rw.RLockKey(k)
+						r.rw.RUnlockKey(k)
+					} else {
+						r.km.LockKey(k)
+						r.km.UnlockKey(k)
+					}
 				}
 			}
 			for t := range prog {
@@ -331,6 +353,22 @@ func main() {
 						}
 					}
 				}
+			}
+		}
+		// many keys: the first use of key y happens when the map already holds 16/32/64/128/256 keys
+		for _, crowd := range []int{14, 30, 62, 126, 254} {
+			if !r.Thorough() && crowd > 126 {
+				continue
+			}
+			for _, pp := range [][][]acq{
+				{{{"L", 0}}, {{"L", 1}, {"TL", 0}}},
+				{{{"L", 0}, {"L", 0}}, {{"L", 1}, {"L", 0}}},
+				{{{"TL", 0}}, {{"TL", 1}, {"L", 0}}},
+			} {
+				scs = append(scs, crowded(rw, false, crowd, pp, ev.Pick(r, 2, 3), -2))
+			}
+			if rw {
+				scs = append(scs, crowded(rw, false, crowd, [][]acq{{{"RL", 0}}, {{"L", 1}, {"TRL", 0}, {"TL", 0}}}, ev.Pick(r, 2, 3), -2))
 			}
 		}
 		// ClearKey between uses (no goroutine holds or awaits the key), another thread on the other key
